@@ -595,7 +595,7 @@ fn separator_check(separated: bool, filename: &str, line: u32) -> Result<(), Tok
 
 // count_newlines()
 // count the number of newlines in a comment or string. This is needed to keep the line count accurate
-fn count_newlines(text: &[u8]) -> u32 {
+pub(crate) fn count_newlines(text: &[u8]) -> u32 {
     text.iter().map(|c| u32::from(*c == b'\n')).sum()
 }
 
